@@ -63,7 +63,7 @@ func (o lop) String() string {
 	switch o.Op {
 	case "commit", "reopen":
 		return o.Op
-	case "setF", "set":
+	case "setF", "set", "rmwF", "rmw":
 		return fmt.Sprintf("%s(%c,%d)", o.Op, 'a'+o.K, o.V)
 	}
 	return fmt.Sprintf("%s(%c)", o.Op, 'a'+o.K)
@@ -79,6 +79,11 @@ func c18Alphabet(nkeys, nvals int) []lop {
 			for v := 1; v <= nvals; v++ {
 				a = append(a, lop{Op: "set" + sfx, K: k, V: v})
 			}
+		}
+		// read-modify-write on the SAME object: Get, change the returned item in place, Set that very pointer (what the
+		// controllers do with accounts, delegatees, rewards); value 2 only, to keep the alphabet small
+		for k := 0; k < nkeys; k++ {
+			a = append(a, lop{Op: "rmw" + sfx, K: k, V: 2})
 		}
 		for k := 0; k < nkeys; k++ {
 			a = append(a, lop{Op: "del" + sfx, K: k})
@@ -284,6 +289,28 @@ func (r *lrun) apply(ops []lop, i int) *engine.Violation {
 	case "set":
 		if xerr := r.led.Set(&litem{K: k, V: byte(o.V)}); xerr != nil {
 			return r.fail("op-error", "set", "Set error %v", xerr)
+		}
+		m.M.w[o.K] = o.V
+	case "rmwF":
+		it, xerr := r.led.GetFinality(k)
+		if xerr == nil && it != nil {
+			it.V = byte(o.V)
+		} else {
+			it = &litem{K: k, V: byte(o.V)}
+		}
+		if xerr := r.led.SetFinality(it); xerr != nil {
+			return r.fail("op-error", "rmwF", "SetFinality error %v", xerr)
+		}
+		m.F.w[o.K] = o.V
+	case "rmw":
+		it, xerr := r.led.Get(k)
+		if xerr == nil && it != nil {
+			it.V = byte(o.V)
+		} else {
+			it = &litem{K: k, V: byte(o.V)}
+		}
+		if xerr := r.led.Set(it); xerr != nil {
+			return r.fail("op-error", "rmw", "Set error %v", xerr)
 		}
 		m.M.w[o.K] = o.V
 	case "delF":
@@ -567,7 +594,7 @@ func (c *c18) Meta() engine.Meta {
 		CaseTimeout: 2 * time.Hour,
 		LevelName:   "0 = insertion-order determinism, 1 = unpruned DFS of all op sequences of the tier's length, 2 = BFS with state de-duplication to the tier's depth",
 		Technique:   "explicit-state exploration of operation sequences on the real FinalityLedger vs a map model (unpruned DFS + BFS with state hashing)",
-		Rule: "alphabet {get,set(2 values),del,cancelSet,cancelDel} x {consensus,mempool overlay} x 2 adjacent keys + commit + reopen (26 ops); " +
+		Rule: "alphabet {get,set(2 values),del,cancelSet,cancelDel} x {consensus,mempool overlay} x 2 adjacent keys + read-modify-write on the SAME item object (Get, change it in place, Set that pointer; value 2) per overlay and key + commit + reopen (30 ops); " +
 			"every op's return value is compared with a map-with-two-overlays model, every commit/reopen re-reads the committed map and EVERY historical version (reads, iteration, scribbling on the view, latest+1 refused); " +
 			"each explored sequence ends with closing probes (all overlay reads, commit, reopen, full history). " +
 			"A case is one DFS prefix shard or the BFS; evaluations counts cases, counters.sequences counts executed sequences; non-trivial = sequence shard in which a delete, a re-creation or a commit with pending changes occurred.",
@@ -622,7 +649,7 @@ func seqNontrivial(ops []lop) bool {
 		case "delF", "del":
 			hasDel = true
 			pending = true
-		case "setF", "set":
+		case "setF", "set", "rmwF", "rmw":
 			if hasDel {
 				hasSetAfterDel = true
 			}
